@@ -75,6 +75,11 @@ class Z3Enc:
             self.side.append(v * v == self.poly(C.factors[C.radf[s]]))
         elif kind == "exp":
             self.side.append(v > 0)
+        elif kind == "gsq":
+            arg = [a for t, a in C.gsq if t == s][0]
+            n, d = self.value(arg)
+            self.side.append(v >= 0)
+            self.side.append(v * v * d == n)
         elif kind == "imag":
             raise Undecided("complex values in a real-arithmetic decision")
         return v
@@ -334,3 +339,65 @@ def check_implies(path_formulas, concl):
 def check_sat(path_formulas):
     r, model, dt = _solve(path_formulas, want_model=True)
     return r, model, dt
+
+
+def _eval_formula(f, symenv, F):
+    k = f[0]
+    if k == "atom":
+        v = alg.evalv(f[1], symenv, F)
+        return RELS[f[2]](v)
+    if k == "and":
+        return all(_eval_formula(g, symenv, F) for g in f[1])
+    if k == "or":
+        return any(_eval_formula(g, symenv, F) for g in f[1])
+    if k == "not":
+        return not _eval_formula(f[1], symenv, F)
+    return k == "true"
+
+
+def numeric_counterexample(formulas, concl, model, tries=600, seed=0):
+    """a concrete point (true exp/log/sqrt) where every formula holds and concl fails; the solver's
+    model is tried first, then points around it, then random points"""
+    import random
+
+    from . import fields
+
+    C = alg.ctx()
+    F = fields.MpField({}, 30)
+    names = [n for i, n in enumerate(C.names) if C.kinds[i] in ("real", "pos", "opq") and n != "pi"
+             and not any(t == i for t, _ in C.logs) and i not in C.boysinfo]
+    rng = random.Random(seed)
+    base = {k: Fraction(v) for k, v in (model or {}).items() if k in names}
+
+    def attempt(env):
+        symenv = {C.byname[k]: F.num(v) for k, v in env.items()}
+        if "pi" in C.byname:
+            symenv[C.byname["pi"]] = F.pi
+        try:
+            if all(_eval_formula(f, symenv, F) for f in formulas) and not _eval_formula(concl, symenv, F):
+                return True
+        except (ZeroDivisionError, ValueError, KeyError, TypeError):
+            return False
+        return False
+
+    cand = dict(base)
+    for n in names:
+        cand.setdefault(n, Fraction(1))
+    if attempt(cand):
+        return {k: str(v) for k, v in cand.items()}
+    for i in range(tries):
+        env = {}
+        for n in names:
+            kind = C.kinds[C.byname[n]]
+            if i % 2 == 0 and n in base:
+                v = base[n] * Fraction(rng.randint(50, 200), 100) + Fraction(rng.randint(-20, 20), 100)
+            else:
+                v = Fraction(rng.randint(-300, 300), 100)
+            if kind == "pos":
+                v = abs(v) + Fraction(1, 100)
+                if n in ("eps", "tol") or n.startswith("eps"):
+                    v = Fraction(rng.randint(1, 99), 100)
+            env[n] = v
+        if attempt(env):
+            return {k: str(v) for k, v in env.items()}
+    return None
